@@ -218,4 +218,97 @@ theorem typeIdent_plain (c : UInt8) (w rest : Bytes) (hc : isAlphaU c = true) (h
     · rename_i r2 heq; injection heq with h1 _; exact absurd h1 hf.2
     · rfl
 
+theorem isWord_lt : isWord 60 = false := by decide
+
+theorem stripPrefix_lt (w n rest : Bytes) (hw : AllWord w) (hn : AllWord n) (hf : Follow rest) :
+    stripPrefix (w ++ [60]) (n ++ rest) = none := by
+  induction w generalizing n with
+  | nil =>
+    cases n with
+    | nil =>
+      cases rest with
+      | nil => rfl
+      | cons d r =>
+        simp only [Follow] at hf
+        have : ((60 : UInt8) == d) = false := by
+          simp only [beq_eq_false_iff_ne, ne_eq]; intro e; exact hf.2 e.symm
+        simp [stripPrefix, this]
+    | cons c n' =>
+      have hc := hn c (by simp)
+      have : ((60 : UInt8) == c) = false := by
+        simp only [beq_eq_false_iff_ne, ne_eq]; intro e; subst e; rw [isWord_lt] at hc; cases hc
+      simp [stripPrefix, this]
+  | cons a w' ih =>
+    have ha := hw a (by simp)
+    cases n with
+    | nil =>
+      cases rest with
+      | nil => rfl
+      | cons d r =>
+        simp only [Follow] at hf
+        have : (a == d) = false := by
+          simp only [beq_eq_false_iff_ne, ne_eq]; intro e; subst e; rw [ha] at hf; cases hf.1
+        simp [stripPrefix, this]
+    | cons c n' =>
+      simp only [List.cons_append, stripPrefix]
+      by_cases hac : a = c
+      · have : (a == c) = true := by simp [hac]
+        rw [this]; simp only [if_true]
+        exact ih n' (fun x hx => hw x (by simp [hx])) (fun x hx => hn x (by simp [hx]))
+      · have : (a == c) = false := by simp [hac]
+        rw [this]; simp
+
+/-- `Map<`, `Tuple<`, `Vec<` are not found at the head of an identifier -/
+theorem atom_lt_word (w n rest : Bytes) (hw : AllWord w) (hn : AllWord n) (hnn : n ≠ []) (hf : Follow rest) :
+    atom (w ++ [60]) (n ++ rest) = none := by
+  cases n with
+  | nil => exact absurd rfl hnn
+  | cons c n' =>
+    rw [List.cons_append, atom_nonws _ c _ (word_not_ws c (hn c (by simp))), ← List.cons_append]
+    exact stripPrefix_lt w _ rest hw hn hf
+
+theorem atom_miss (lit : Bytes) (c : UInt8) (r : Bytes) (hc : isWS c = false) (hm : mismatch lit [c] = true) :
+    atom lit (c :: r) = none := by
+  rw [atom_nonws _ c _ hc]; exact stripPrefix_mismatch lit [c] r hm
+
+theorem atom_hit (lit : Bytes) (c : UInt8) (l r : Bytes) (he : lit = c :: l) (hc : isWS c = false) :
+    atom lit (lit ++ r) = some r := by
+  subst he; rw [List.cons_append, atom_nonws _ c _ hc, ← List.cons_append]; exact stripPrefix_append _ _
+
+theorem parseMap_none (f : Nat) (inp : Bytes) (h : atom kwMap inp = none) : parseMap f inp = none := by
+  cases f <;> simp [parseMap, h]
+theorem parseVec_none (f : Nat) (inp : Bytes) (h : atom kwVec inp = none) : parseVec f inp = none := by
+  cases f <;> simp [parseVec, h]
+theorem parseTuple_none (f : Nat) (inp : Bytes) (h : atom kwTuple inp = none) : parseTuple f inp = none := by
+  cases f <;> simp [parseTuple, h]
+
+theorem keywords_heads : keywords.all (fun k => mismatch k [62] && mismatch k [77] && mismatch k [84] && mismatch k [86]) = true := by decide
+
+/-- no basic type starts with `c`, for the four characters that start something else -/
+theorem firstKeyword_miss (c : UInt8) (r : Bytes) (hc : c = 62 ∨ c = 77 ∨ c = 84 ∨ c = 86) :
+    firstKeyword keywords 0 (c :: r) = none := by
+  apply firstKeyword_none
+  intro k hk
+  have := List.all_eq_true.mp keywords_heads k hk
+  simp only [Bool.and_eq_true] at this
+  have hws : isWS c = false := by rcases hc with h | h | h | h <;> subst h <;> decide
+  have hm : mismatch k [c] = true := by
+    rcases hc with h | h | h | h <;> subst h
+    · exact this.1.1.1
+    · exact this.1.1.2
+    · exact this.1.2
+    · exact this.2
+  exact keyword_mismatch k [c] r c [] rfl hws hm
+
+/-- nothing that is a type starts with `>` -/
+theorem parseT_gt (f : Nat) (r : Bytes) : parseT f (62 :: r) = none := by
+  cases f with
+  | zero => rfl
+  | succ f =>
+    simp only [parseT, firstKeyword_miss 62 r (Or.inl rfl)]
+    rw [parseMap_none f _ (atom_miss kwMap 62 r (by decide) (by decide)),
+        parseTuple_none f _ (atom_miss kwTuple 62 r (by decide) (by decide)),
+        parseVec_none f _ (atom_miss kwVec 62 r (by decide) (by decide))]
+    simp [typeIdent, skipWS, isWS, isAlphaU]
+
 end QiVerif.C18
